@@ -21,7 +21,7 @@
 //! result: {"id", "ok", "viol": [{"kind", "step", ...}], "snap_viol": [...], "n_apply", "n_compare",
 //!          "n_snap", "trace": [...]?}
 //! kinds: panic | result_mismatch | state_mismatch | invariant | sealed_changed | observers_disagree |
-//!        undecodable_changed_state | snapshot_mismatch | restore_failed | diverged_after_restore
+//!        undecodable_changed_state | rejected_changed_state | snapshot_mismatch | restore_failed | diverged_after_restore
 use crate::metadata::{ClusterState, Metadata, MetadataCmd};
 use crate::util::{guarded, hex, unhex};
 use octopii::StateMachineTrait;
@@ -146,6 +146,7 @@ fn classify(res: &Result<bytes::Bytes, String>) -> String {
         },
         Err(e) if e == "Topic not found" => "ERR_NOTOPIC".into(),
         Err(e) if e.starts_with("decode cmd") => "ERR_DECODE".into(),
+        Err(e) if e == "sealed entry offset overflow" => "ERR_OVERFLOW".into(),
         Err(e) => format!("ERR:{}", e),
     }
 }
@@ -426,6 +427,11 @@ impl Run {
     }
 }
 
+/// a command that was refused (error or EXISTS) must leave the state as it was
+fn rejected(cls: &str) -> bool {
+    cls.starts_with("ERR") || cls == "EXISTS"
+}
+
 fn apply_patch(base: &Obs, c: &Cmd) -> Option<Obs> {
     let mut o = base.clone();
     let p = c.patch.as_ref()?.as_array()?;
@@ -501,6 +507,9 @@ pub fn run_case(case: &Value, snap: bool) -> Value {
                 break;
             };
             run.check_property(prev.as_ref(), &now, step, &cmd_to_json(c));
+            if rejected(&cls) && Some(&now) != prev.as_ref() {
+                run.v("rejected_changed_state", step, json!({"cmd": cmd_to_json(c), "value": cls, "after": now.to_json()}));
+            }
             if want_trace {
                 trace.push(json!({"c": cmd_to_json(c), "r": cls, "s": now.to_json()}));
             }
@@ -568,10 +577,8 @@ pub fn run_case(case: &Value, snap: bool) -> Value {
                     let cls = classify(&res);
                     let Some(now) = run.observe_or_report(&m, step) else { break };
                     run.check_property(prev.as_ref(), &now, step, &json!({"bytes": hex(&bytes)}));
-                    if cls == "ERR_DECODE" || cls == "ERR_NOTOPIC" || cls == "EXISTS" {
-                        if Some(&now) != prev.as_ref() {
-                            run.v("undecodable_changed_state", step, json!({"bytes": hex(&bytes), "value": cls, "after": now.to_json()}));
-                        }
+                    if rejected(&cls) && Some(&now) != prev.as_ref() {
+                        run.v("rejected_changed_state", step, json!({"bytes": hex(&bytes), "value": cls, "after": now.to_json()}));
                     }
                     if want_trace {
                         trace.push(json!({"bytes": hex(&bytes), "r": cls}));
